@@ -116,6 +116,9 @@ pub fn execute(prop: &str, sc: &CleanScript, opts: &ExecOpts) -> Outcome {
         let mut expected_specs: Vec<&FrameSpec> = vec![];
         let mut reference_wire: Vec<u8> = vec![];
         let mut boundaries: Vec<usize> = vec![0];
+        // every frame of the script in order, legal or not: the refused ones go through the same
+        // FramedWrite and must leave no trace on the wire
+        let mut offered: Vec<(Frame, bool)> = vec![];
         for spec in &sc.frames {
             let l = reference_length(spec);
             let frame = spec.build();
@@ -128,6 +131,7 @@ pub fn execute(prop: &str, sc: &CleanScript, opts: &ExecOpts) -> Outcome {
                 } else if !buf.is_empty() {
                     out.probe("encoder_error_left_bytes_in_buffer");
                 }
+                offered.push((frame, false));
                 continue;
             }
             if l == MAX as u64 {
@@ -149,6 +153,7 @@ pub fn execute(prop: &str, sc: &CleanScript, opts: &ExecOpts) -> Outcome {
             }
             reference_wire.extend_from_slice(&buf);
             boundaries.push(reference_wire.len());
+            offered.push((frame.clone(), true));
             expected.push(frame);
             expected_specs.push(spec);
         }
@@ -161,7 +166,7 @@ pub fn execute(prop: &str, sc: &CleanScript, opts: &ExecOpts) -> Outcome {
         // accepts one byte every few polls is slow, not stuck)
         let mut stuck = 0u32;
         let mut last_len = 0usize;
-        for f in &expected {
+        for (f, legal) in &offered {
             // poll_ready
             loop {
                 match Pin::new(&mut fw).poll_ready(&mut cx) {
@@ -184,9 +189,19 @@ pub fn execute(prop: &str, sc: &CleanScript, opts: &ExecOpts) -> Outcome {
                     }
                 }
             }
-            if let Err(e) = Pin::new(&mut fw).start_send(f.clone()) {
-                out.violate(prop, "write-error", "framed-write", format!("start_send failed: {e}"));
-                return;
+            match Pin::new(&mut fw).start_send(f.clone()) {
+                Ok(()) if !*legal => {
+                    out.violate(prop, "oversize-encode-accepted", "framed-write", "a frame with a payload above 1 MiB was accepted by the framed writer".into());
+                    return;
+                }
+                // refused: the sink stays in use, the refusal must leave nothing behind (checked
+                // below: the wire must be the concatenation of the legal frames only)
+                Err(_) if !*legal => out.probe("sink_used_after_refused_frame"),
+                Err(e) => {
+                    out.violate(prop, "write-error", "framed-write", format!("start_send failed: {e}"));
+                    return;
+                }
+                Ok(()) => {}
             }
         }
         loop {
